@@ -133,15 +133,21 @@ def build_harness(name, link_lib=True, extra=(), header_only_deps=()):
     os.makedirs(os.path.dirname(out), exist_ok=True)
     lk = _lock(".h_%s.lock" % name)
     try:
-        dep = max([_mtime(src)] + [_mtime(os.path.join(HARNESS, f)) for f in os.listdir(HARNESS)
-                                   if f.endswith(".hpp")])
+        # a harness is current when it was linked from exactly these inputs (compared by identity of the inputs,
+        # not by ordering of time stamps: the library is rebuilt back and forth when changes are tried on /repo)
+        parts = [(src, os.stat(src).st_mtime_ns, os.path.getsize(src))]
+        for f in sorted(os.listdir(HARNESS)):
+            if f.endswith(".hpp"):
+                q = os.path.join(HARNESS, f)
+                parts.append((f, os.stat(q).st_mtime_ns, os.path.getsize(q)))
         if link_lib:
-            dep = max(dep, _mtime(lib))
+            parts.append(("lib", os.stat(lib).st_mtime_ns, os.path.getsize(lib)))
         for d in header_only_deps:
-            dep = max(dep, _tree_newest(os.path.join(REPO, d), (".hpp", ".h", ".inc")))
-        # public headers of the library can change the harness too
-        dep = max(dep, _mtime(os.path.join(RBUILD, "build.ninja")) and 0)
-        if _mtime(out) > dep:
+            parts.append((d, _tree_newest(os.path.join(REPO, d), (".hpp", ".h", ".inc"))))
+        parts.append(("flags", " ".join(CXXFLAGS + list(extra))))
+        stamp = hashlib.md5(repr(parts).encode()).hexdigest()
+        sfile = out + ".stamp"
+        if os.path.exists(out) and os.path.exists(sfile) and open(sfile).read().strip() == stamp:
             return out
         cmd = ["g++"] + CXXFLAGS + list(extra) + [src, "-o", out + ".tmp"]
         if link_lib:
@@ -152,6 +158,8 @@ def build_harness(name, link_lib=True, extra=(), header_only_deps=()):
         if rc != 0:
             raise ToolingError("harness build failed (%s):\n%s" % (name, o[-6000:]))
         os.replace(out + ".tmp", out)
+        with open(sfile, "w") as fh:
+            fh.write(stamp)
         log("harness %s built in %.0fs" % (name, time.time() - t0))
         return out
     finally:
